@@ -5,6 +5,7 @@ from fractions import Fraction
 from vcheck import Case, gz, gzlist, gzmat, gnlist, gnmat, gnat, gopt, gq, gbool, gblist
 import tgen
 from props import c13_util as U
+from props import c13_driver as D
 
 PROP = "C13"
 LEVEL = "proof"
@@ -13,11 +14,11 @@ LEVEL = "proof"
 # C13_best_model / C13_trace_len / C13_reported_trace_full over the generated function — an edit of the epoch loop in /repo breaks them
 INCLUDE = ['w4s_c13']   # wave 4 (lead, integration): generated skeleton of StochasticSolver.solve (Gen/GenSolver.v): bridge theorems + replay stream sk_solve
 GEN_UNITS = ["GenSolver"]
-COQ_TARGETS = ["Props/C13.vo", "Alg/C13Harness.vo", "Alg/C13Config.vo", "Alg/C13Vec.vo", "Alg/C13StepArith.vo", "Alg/C13Thm.vo", "Model/Harness.vo",
+COQ_TARGETS = ["Props/C13.vo", "Alg/C13Harness.vo", "Alg/C13Config.vo", "Alg/C13Vec.vo", "Alg/C13StepArith.vo", "Alg/C13Thm.vo", "Alg/C13Opts.vo", "Alg/C13Driver.vo", "Alg/C13Solver2.vo", "Alg/C13Gen.vo", "Props/C13b.vo", "Model/Harness.vo",
                "Props/W4SC13.vo"]
-THEOREM_FILES = ["Props/C13.v", "Props/W4SC13.v"]
+THEOREM_FILES = ["Props/C13.v", "Props/C13b.v", "Props/W4SC13.v"]
 COQ_IMPORTS = ("From Coq Require Import List ZArith Bool QArith Qcanon.\n"
-               "From PV Require Import Base.Index Np.Array Model.Sparse Model.Harness Model.Repr Alg.C13Samplers Alg.C13Solver Alg.C13Steps Alg.C13Config Alg.C13Harness Alg.C13StepArith.\n")
+               "From PV Require Import Base.Index Np.Array Model.Sparse Model.Harness Model.Repr Alg.C13Samplers Alg.C13Solver Alg.C13Steps Alg.C13Config Alg.C13Harness Alg.C13StepArith Alg.C13Opts Alg.C13Driver.\n")
 RULE = ("samplers: dense / sparse integer tensors with 2..12 cells (empty, one nonzero, some, nearly full, full), every sampler "
         "kind, counts 0..6 (incl. more nonzero samples than nonzeros), numpy's draws captured (and in a separate stream forced to 0.0 / "
         "1-2^-53) and replayed through the model; solves: SGD/Adam/Adagrad on 2x2..3x3x2 problems with rates from 1e-3 to 30 (failing "
@@ -121,6 +122,24 @@ def gen_cases(rng, tier):
                       "init_weights": [rng.choice([2.0, 0.5, 3.0]) for _ in range(a["R"])]})
         cases.append(Case("solve", a, a["max_iters"] > 0))
         cases.append(Case("solve_trace", dict(a), a["max_iters"] > 0))
+    # ---- scripted estimates: the function estimator answers a prescribed sequence (start, epoch 1, 2, ...), so EVERY relative order
+    #      of the estimates (ties included) of a 3-epoch solve and (quick: max_fails rotating; thorough: all) of a 4-epoch solve is
+    #      issued: success / failure / rollback histories such as "success, FAIL, then an epoch between the best and the failed
+    #      value", failures at the first / last epoch, ties with the best value, stops by max_fails and by the tolerance
+    kopt = 0
+    for n in (4, 5):
+        for idx, w in enumerate(U.weak_orderings(n)):
+            for mf in ((0, 1, 2) if (n == 4 or big) else (idx % 3,)):
+                shp = [(2, 2), (2, 3), (3, 2, 2)][kopt % 3]
+                a = U.rand_problem(rng, shp)
+                a["sparse"] = False
+                a.update({"opt": ["sgd", "adam", "adagrad"][kopt % 3], "rate": [0.01, 0.125][kopt % 2], "decay": 0.5, "max_fails": mf,
+                          "epoch_iters": 1 + kopt % 2, "max_iters": n - 1, "tol": [None, None, None, 1.5][(idx + mf) % 4],
+                          "script": [float(v + 1) for v in w]})
+                kopt += 1
+                cases.append(Case("solve", a, True))
+                if n == 4 or big:
+                    cases.append(Case("solve_trace", dict(a), True))
     # ---- L-BFGS-B wrapper (scipy is an oracle): option corners that change scipy's control flow (abandoned line searches,
     #      budgets of 0..3 iterations / evaluations), memory layouts of the initial factors, data / start magnitudes 2^-20..2^20;
     #      the vector scipy answers is replayed through the Coq wrapper model (returned model = that vector, read back)
@@ -150,6 +169,20 @@ def gen_cases(rng, tier):
             p.update({"layout": rng.choice(["C", "F", "view"]), "mask": None})
             probs.append(p)
         cases.append(Case("lbfgsb_reuse", {"opts": opts, "probs": probs}, True))
+    # ---- ... and sequences whose termination is decided by the projected-gradient test (factr = 0 switches the relative-decrease
+    #      test off; default or explicit pgtol), on tensors of very different sizes in both orders (small -> big -> small, big -> small):
+    #      an option derived from the FIRST tensor's size and kept on the object changes the iterate count of the later solves
+    for k in range(12 if big else 4):
+        opts = [{"factr": 0.0, "maxiter": 60}, {"factr": 0.0, "maxiter": 60, "pgtol": 1e-3}, {"factr": 0.0, "maxiter": 40, "m": 3},
+                {"factr": 0.0, "maxiter": 60}][k % 4]
+        small, bigs = rng.choice([(2, 2), (3, 1), (2, 1, 2)]), rng.choice([(4, 3, 3), (5, 4, 2), (6, 6)])
+        order = [small, bigs, small] if k % 2 == 0 else [bigs, small]
+        probs = []
+        for shp in order:
+            p = U.rand_problem(rng, shp)
+            p.update({"layout": rng.choice(["C", "F"]), "mask": None, "obj": rng.choice(["gaussian", "poisson"])})
+            probs.append(p)
+        cases.append(Case("lbfgsb_reuse", {"opts": dict(opts), "probs": probs}, True))
     # ---- update-step arithmetic: every step of a solve captured, a few replayed through the exact-rational step models
     for k in range(72 if big else 24):
         shp = rng.choice([(2, 2), (2, 3), (3, 2, 2), (3, 1)])
@@ -198,6 +231,8 @@ def gen_cases(rng, tier):
                                                                        U.lb_witness_args({})]}, True))
     # ---- GCPSampler configuration table (counts read back from the object)
     cases += U.config_cases(rng, big)
+    # ---- the gcp_opt driver in isolation: every request class it distinguishes, recording solver objects (tools/props/c13_driver.py)
+    cases += D.driver_cases(rng, big)
     return cases
 
 
@@ -223,6 +258,8 @@ def run_impl(c):
             o = U.run_lbfgsb_reuse(a)
         elif c.op == "config":
             o = U.run_config(a)
+        elif c.op == "driver":
+            return D.run_driver(a)          # exceptions of gcp_opt are observations here, everything else is a harness error
         else:
             raise ValueError(c.op)
     except Exception as ex:
@@ -287,6 +324,8 @@ def coq_check(c, o):
     a = c.args
     if o.get("skip"):
         return None
+    if c.op == "driver":
+        return D.driver_check(a, o)
     if "exc" in o:
         if c.op.startswith(("strat", "semi")):
             # rejection is the right answer exactly for nonzero samples requested from a tensor without nonzeros (decided in Coq)
@@ -393,6 +432,10 @@ def coq_check(c, o):
             parts.append(f"Nat.leb {gnat(r['cb_calls'])} (Nat.max {gnat(mi)} 1) && Nat.eqb {gnat(r['trace_len'])} (monitor_slots {gnat(mi)}) && "
                          f"negb (monitor_raises {gnat(r['trace_len'])} {gnat(r['cb_calls'])}) && Nat.eqb {gnat(r['cb_calls'])} {gnat(r['nit'])}")
             parts.append(f"Nat.eqb {gnat(r['nbounds'])} {gnat(r['nvec'])} && obs_bits {gblist([r['init_unchanged'], r['shapes_ok'], r['slots_ok']])}")
+        # what scipy is handed in BOTH solves is the constructor's options without the None ones, the callback slot holding the
+        # monitor: a function of the constructor call alone, not of the data size or of the earlier solve (C13_lbfgsb_options)
+        parts.append(f"zopts_seq_ok {U.g_ctor(a.get('opts', {}), a['callback'])} {gzlist([r['size'] for r in o['outs']])} "
+                     f"{U.g_opts_seen([r['opts'] for r in o['outs']])}")
         r1, r2 = o["outs"][0], o["outs"][1]
         # the second identical solve on the same object gives the same model and the same final_f
         parts.append(f"zfactors_eqb {zrows(r1['factors'])} {zrows(r2['factors'])} && Z.eqb {gz(zf(r1['final_f']))} {gz(zf(r2['final_f']))}")
@@ -412,7 +455,11 @@ def coq_check(c, o):
             return "false"
         re_, fr_ = U.scale_many([r["flat"] for r in o["reused"]], [r["flat"] for r in o["fresh"]])
         fe, f0 = U.scale_many([[r["f_end"] for r in o["reused"]]], [[r["f0"] for r in o["reused"]]])
-        return (f"list_eqb vec_eqb {gzmat(re_)} {gzmat(fr_)} && obs_bits [{gbool(o['restored'])}] && "
+        # every solve of the sequence on the shared object hands scipy what a fresh object does: the constructor's options, whatever
+        # the sizes of the tensors seen before (handed_seq, Alg/C13Opts.v)
+        oseq = (f"zopts_seq_ok {U.g_ctor(a.get('opts', {}), False)} {gzlist([r['size'] for r in o['reused']])} "
+                f"{U.g_opts_seen([r['opts'] for r in o['reused']])} && ")
+        return (oseq + f"list_eqb vec_eqb {gzmat(re_)} {gzmat(fr_)} && obs_bits [{gbool(o['restored'])}] && "
                 f"forallb (fun p => Z.leb (fst p) (snd p)) (combine {gzlist(fe[0])} {gzlist(f0[0])})")
     if c.op == "reuse":
         if any("exc" in r for r in o["reused"] + o["fresh"]):
@@ -428,6 +475,8 @@ def oracle(c, o):
     a = c.args
     if o.get("skip"):
         return None
+    if c.op == "driver":
+        return D.driver_oracle(a, o)
     if "exc" in o:
         return f"admissible request raised {o['exc']}: {o.get('msg')}"
     return U.oracle(c.op, a, o)
